@@ -1020,6 +1020,11 @@ func (ex *Exec) binop(op token.Token, x, y Value, t types.Type) Value {
 		return ex.ropeCat(ex.toRope(x), ex.toRope(y))
 	}
 	if fx, ok := x.(FVal); ok {
+		switch op {
+		case token.LSS, token.GTR, token.LEQ, token.GEQ:
+			ex.stubsUsed["float:comparison free"]++
+			return ex.nondet(BoolSort)
+		}
 		return FVal{op.String(), []Value{fx, y}}
 	}
 	if sx, ok := x.(Str); ok {
@@ -1177,7 +1182,20 @@ func (ex *Exec) convert(v Value, from, to types.Type) Value {
 			var bs []*Term
 			for _, sg := range r.segs {
 				if sg.opaque {
-					panic(unsupported("[]byte of a rope with opaque segments"))
+					switch {
+					case sg.num != nil:
+						bs = append(bs, ex.numToken(sg.num).b...) // travels as a 16-letter token; ParseInt gives the term back
+					case sg.rn == nil && sg.ln == sg.wd:
+						n := int(ex.concretize(sg.ln))
+						for k := 0; k < n; k++ {
+							c := ex.nondet(8)
+							ex.assume(ex.ts.And(ex.ts.Bin(OpULe, ex.ts.Const(8, 0x20), c), ex.ts.Bin(OpULe, c, ex.ts.Const(8, 0x7e))))
+							bs = append(bs, c)
+						}
+					default:
+						panic(unsupported("[]byte of a rope with abstract runes"))
+					}
+					continue
 				}
 				bs = append(bs, sg.b...)
 			}
